@@ -107,7 +107,12 @@ CHECKS = {
              'pyctr over write/seek/read/re-open histories; monitors: same-session read-back = writes laid over the previous '
              'contents, re-open with a fresh reader, every block re-verified by an independent reference reader, header hash, '
              'CMAC (RFC 4493 transcription), position bookkeeping, read-only error, and the exact set of file positions that '
-             'may change.  Theorems so far cover the write path\'s no-op cases; see the evidence file for the list.',
+             'may change.  Theorems: the hash-path theorem on the levels as byte arrays (every touched block and every block that '
+             'verified before has an intact chain to the updated master hashes; the written level is the old one with the data '
+             'laid over it; a fully verifying tree stays so and its verified view is the overlay) for the specification function '
+             'absWrite, which the driver compares with the model\'s write_data on every write of every run (the refinement proof '
+             'from the DPFS-backed model to absWrite is in progress; until then that link is by execution); position bookkeeping, '
+             'read-only error, no-op writes, descriptor/header hash update for DIFF and DISA, CMAC inputs.',
         note=COMMON_NOTE + 'SHA-256/AES-CMAC executable in the driver, parameters in theorems; partial updates after an '
              'IndexError inside a write are not modelled (history ends there).',
         technique='Lean 4 model + proof (partial) + model/implementation correspondence',
